@@ -175,6 +175,9 @@ func makeScenario(run *vlib.Run, sd *gen.SchemaDesc, i int, stream string) *scen
 	w := gen.NewWorld(uint64(r.Int63()), 4+r.Intn(10), 3+r.Intn(6))
 	o := gen.DefaultGenOpts()
 	o.MaxDepth = 3 + r.Intn(3)
+	if r.Intn(3) == 0 {
+		o = gen.MergeHeavy(o)
+	}
 	o.UnionSecondFragment = true
 	sc := &scenario{w: w, plan: &plan{res: reactive.NewResource()}}
 	sc.doc = gen.Generate(r, sd, w, o)
